@@ -501,6 +501,6 @@ class RadialProfile(ProfileBase):
         if self.unit is not None:
             # same units as ``profile`` (independent of any normalization)
             data_profile = data_profile << self.unit
-        if self.normalization_value != 1.0:
-            data_profile = data_profile / self.normalization_value
-        return data_profile
+        # always divide (also by 1.0) so that the dtype of the result
+        # for integer data does not depend on the normalization history
+        return data_profile / self.normalization_value
